@@ -15,13 +15,12 @@ def main():
     ids = [json.loads(l)['id'] for l in open(os.path.join(VERIF, 'properties.jsonl')) if l.strip()]
     checks, na = [], []
     for pid in ids:
-        try:
-            if pid not in CLAIMED:
-                raise ModuleNotFoundError(pid)
-            mod = importlib.import_module('harness.props.' + pid.lower())
-        except ModuleNotFoundError:
+        if pid not in CLAIMED:
             na.append({'property_id': pid, 'reason': PENDING})
             continue
+        # run with /venv/bin/python: a module that fails to import (tornado missing in another interpreter) must stop the
+        # regeneration rather than silently drop the property
+        mod = importlib.import_module('harness.props.' + pid.lower())
         if getattr(mod, 'NOT_CLAIMED', None):
             na.append({'property_id': pid, 'reason': mod.NOT_CLAIMED})
             continue
